@@ -43,9 +43,10 @@
                | sequence of rules [flt, st, form]  (form "ok" | "segments" | "status" | "empty")
      [k |-> "flow", v]                                        a new HTTP flow enters the request hooks
      [k |-> "hook", a, v, exc]                                addon a's request hook returned; v = view after it
-     [k |-> "dns", ans, msg]  /  [k |-> "dnshook", ans, msg, exc]   answer section before / after dns_response
+     [k |-> "dns", ans, msg, addech] / [k |-> "dnshook", ans, msg, addech, exc]   answers before / after dns_response
           answer: [t |-> "https" | "other", ech, hasalpn, alpn |-> << [id, h3] >>, rest]; msg, rest: interned
-          remainder of the message / record (equal number = nothing changed)                                      *)
+          remainder of the message / record (equal number = nothing changed); addech: an HTTPS record of the
+          ADDITIONAL section carries ech (observation only)                                                       *)
 EXTENDS Verif
 
 Off == [op |-> "off", n |-> 0, neg |-> FALSE]
@@ -58,7 +59,7 @@ NoResponse == 444
 
 MonInit == [bad |-> <<>>, wit |-> {}, sa |-> Off, ac |-> FALSE, acomp |-> FALSE, bl |-> <<>>, ech |-> TRUE, h3 |-> TRUE,
             lastM |-> {}, lastA |-> {}, lastE |-> {}, seen |-> {}, cur |-> NoView, has |-> FALSE,
-            dns |-> <<>>, dnsmsg |-> 0, hasdns |-> FALSE]
+            dns |-> <<>>, dnsmsg |-> 0, addech |-> FALSE, hasdns |-> FALSE]
 
 \* host -> value maps as sets of pairs
 Lookup(S, h) == IF \E p \in S : p[1] = h THEN (CHOOSE p \in S : p[1] = h)[2] ELSE 0
@@ -252,7 +253,8 @@ DnsHook(m, ev) ==
            \cup (IF ~m.h3 /\ \E i \in H : H3Of(pre[i].alpn) # <<>> /\ NonH3Of(pre[i].alpn) # <<>> THEN {"alpn_mixed_http3_off"} ELSE {})
            \cup (IF ~m.h3 /\ \E i \in H : H3Of(pre[i].alpn) # <<>> /\ NonH3Of(pre[i].alpn) = <<>> THEN {"alpn_only_h3_http3_off"} ELSE {})
            \cup (IF m.h3 /\ \E i \in H : H3Of(pre[i].alpn) # <<>> THEN {"alpn_h3_http3_on"} ELSE {})
-           \* observation, not a clause
+           \* observations, not clauses
+           \cup (IF m.ech /\ m.addech /\ ev.addech THEN {"obs:additional_section_ech_kept"} ELSE {})
            \cup (IF Len(post) = Len(pre) /\ \E i \in H : H3Of(pre[i].alpn) # <<>> /\ H3Of(post[i].alpn) = <<>> THEN {"obs:h3_removed"} ELSE {})
   IN [m EXCEPT !.bad = b, !.wit = @ \cup w, !.hasdns = FALSE]
 
@@ -262,7 +264,7 @@ MonStep(m, ev) ==
     [] ev.k = "conf" -> Conf(m, ev)
     [] ev.k = "flow" -> [m EXCEPT !.cur = ev.v, !.has = TRUE]
     [] ev.k = "hook" -> IF ~m.has THEN [m EXCEPT !.bad = <<"X07.hook_without_flow">>] ELSE Hook(m, ev)
-    [] ev.k = "dns" -> [m EXCEPT !.dns = ev.ans, !.dnsmsg = ev.msg, !.hasdns = TRUE]
+    [] ev.k = "dns" -> [m EXCEPT !.dns = ev.ans, !.dnsmsg = ev.msg, !.addech = ev.addech, !.hasdns = TRUE]
     [] ev.k = "dnshook" -> DnsHook(m, ev)
     [] OTHER -> m
 
